@@ -90,6 +90,9 @@ fn has_block_comment_near_item(n: &SyntaxNode, in_item: bool) -> bool {
             return true;
         }
     }
+    if is_item(n.kind()) && n.children().any(|c| c.kind() == K::BlockComment) {
+        return true;
+    }
     let in_item = in_item || is_item(n.kind());
     n.children().any(|c| has_block_comment_near_item(c, in_item))
 }
@@ -135,6 +138,19 @@ pub fn obscmp(a: &str, b: &str) -> String {
     f.join("\t")
 }
 
+/// KF-E class (F18): a source line whose trailing blank run holds a White_Space character that the
+/// markup lexer treats as text (anything but space, tab and the newline characters), e.g. U+00A0.
+fn has_exotic_trailing_blank(src: &str) -> bool {
+    for line in src.split(|c| typst_syntax::is_newline(c)) {
+        let trimmed = line.trim_end();
+        let tail = &line[trimmed.len()..];
+        if tail.chars().any(|c| c != ' ' && c != '\t') {
+            return true;
+        }
+    }
+    false
+}
+
 pub fn run(w: usize, t: usize, reorder: bool, src: &str) -> String {
     let mut f: Vec<String> = Vec::new();
     let source = Source::detached(src.to_string());
@@ -148,6 +164,7 @@ pub fn run(w: usize, t: usize, reorder: bool, src: &str) -> String {
     f.push(format!("kfa={}", has_comment_in_equation(root, false) as u8));
     f.push(format!("kfb={}", has_block_comment_near_item(root, false) as u8));
     f.push(format!("kfc={}", has_empty_term(root) as u8));
+    f.push(format!("kfe={}", has_exotic_trailing_blank(src) as u8));
     let kfd = obs::obs_off(root).iter().any(|x| matches!(x, Some((_, t)) if t.contains('\n')));
     f.push(format!("kfd={}", kfd as u8));
     typstyle_core::verif_hooks::reset();
@@ -186,8 +203,15 @@ pub fn run(w: usize, t: usize, reorder: bool, src: &str) -> String {
                 if a != b {
                     f.push(format!("c01d={}", hex(&str_diff(&a, &b))));
                 }
-                let a = obs::obs_comments(root);
-                let b = obs::obs_comments(oroot);
+                let mut a = obs::obs_comments(root);
+                let mut b = obs::obs_comments(oroot);
+                if reorder {
+                    // sorting import items changes which word is next to a comment near them
+                    for x in a.iter_mut().chain(b.iter_mut()) {
+                        x.2.clear();
+                        x.3.clear();
+                    }
+                }
                 f.push(format!("c06={}", (a == b) as u8));
                 if a != b {
                     f.push(format!("c06d={}", hex(&first_diff(&a, &b))));
@@ -233,8 +257,12 @@ pub fn run(w: usize, t: usize, reorder: bool, src: &str) -> String {
                     b.sort();
                 }
                 f.push(format!("c10={}", (a == b) as u8));
-                let aw: Vec<String> = a.iter().map(|x| obs::strip_line_ends(x)).collect();
-                let bw: Vec<String> = b.iter().map(|x| obs::strip_line_ends(x)).collect();
+                let mut aw: Vec<String> = a.iter().map(|x| obs::strip_line_ends(x)).collect();
+                let mut bw: Vec<String> = b.iter().map(|x| obs::strip_line_ends(x)).collect();
+                if reorder {
+                    aw.sort();
+                    bw.sort();
+                }
                 f.push(format!("c10w={}", (aw == bw) as u8));
                 if a != b {
                     f.push(format!("c10d={}", hex(&first_diff(&a, &b))));
